@@ -80,19 +80,31 @@ def bytes_strategy():
     return st.one_of(st.sampled_from([b"", b"\x00", b"\xff", b"\x80\x01"]), st.binary(max_size=12))
 
 
+def _nan_variants(width: int):
+    """NaNs with a sign bit and with payload bits (as Python floats): what a float32 / float64 field must carry over."""
+    out = []
+    if width == 32:
+        for hx in ("0000c0ff", "0100c07f", "ffffff7f", "0100807f", "5555d5ff"):
+            out.append(struct.unpack("<f", bytes.fromhex(hx))[0])
+    else:
+        for hx in ("000000000000f8ff", "010000000000f87f", "ffffffffffffff7f", "010000000000f07f", "555555555555fdff"):
+            out.append(struct.unpack("<d", bytes.fromhex(hx))[0])
+    return out
+
+
 def float_strategy(t: str):
     if t == "float":
         return st.one_of(
             st.sampled_from([0.0, -0.0, 1.0, -1.5, math.inf, -math.inf, math.nan, 1.401298464324817e-45, 3.4028234663852886e38, 0.10000000149011612]),
             st.floats(width=32),
-            st.sampled_from([math.inf, -math.inf, math.nan, -0.0]),
+            st.sampled_from([math.inf, -math.inf, math.nan, -0.0] + _nan_variants(32)),
             # Python ints where a float is expected (m.ratio = 1): exactly representable ones
             st.sampled_from([1, -1, 2, 7, 100, 2**24, -(2**24), 3]),
         )
     return st.one_of(
         st.sampled_from([0.0, -0.0, 1.0, -1.5, math.inf, -math.inf, math.nan, 5e-324, 1.7976931348623157e308, 0.1]),
         st.floats(),
-        st.sampled_from([math.inf, -math.inf, math.nan, -0.0]),
+        st.sampled_from([math.inf, -math.inf, math.nan, -0.0] + _nan_variants(64)),
         st.sampled_from([1, -1, 2, 7, 100, 2**53, -(2**53), 3]),
     )
 
